@@ -447,6 +447,110 @@ func c02IfaceHolding(c *rt.Ctx, sub0 int) {
 	c.Obs("interface_holding_cases", int64(sub-sub0))
 }
 
+// c02EmptyValues: the empty spelling of every kind ("", [], {}, 0, false, null) into destinations
+// that are zero and that already hold something, as top-level value, member, repeated member,
+// element and map value. nil and empty are different results (reflect.DeepEqual tells them apart).
+func c02EmptyValues(c *rt.Ctx, sub0 int) {
+	type dst struct {
+		B  []byte
+		S  string
+		L  []int
+		M  map[string]int
+		A  [3]int
+		P  *int
+		I  int
+		T  bool
+		R  stdjson.RawMessage
+		N  stdjson.Number
+		X  any
+		St struct{ Q int }
+		LB [][]byte
+		MB map[string][]byte
+		LS []string
+		F  float64
+		PB *[]byte
+	}
+	seven := 7
+	full := func() *dst {
+		pb := []byte("old")
+		return &dst{B: []byte("old"), S: "old", L: []int{1, 2}, M: map[string]int{"old": 1}, A: [3]int{1, 2, 3}, P: &seven, I: 7, T: true, R: stdjson.RawMessage(`"old"`), N: "7", X: "old",
+			St: struct{ Q int }{7}, LB: [][]byte{[]byte("old")}, MB: map[string][]byte{"k": []byte("old")}, LS: []string{"old"}, F: 7.5, PB: &pb}
+	}
+	empties := map[string][]string{
+		"B": {`""`, `null`, `[]`}, "S": {`""`, `null`}, "L": {`[]`, `null`}, "M": {`{}`, `null`}, "A": {`[]`, `null`, `[0]`}, "P": {`0`, `null`}, "I": {`0`, `null`, `-0`}, "T": {`false`, `null`},
+		"R": {`""`, `null`, `[]`, `{}`, `0`}, "N": {`0`, `null`, `"0"`}, "X": {`""`, `null`, `[]`, `{}`, `0`, `false`}, "St": {`{}`, `null`}, "LB": {`[]`, `[""]`, `["",""]`, `[null]`},
+		"MB": {`{}`, `{"k":""}`, `{"k":null}`, `{"":""}`}, "LS": {`[]`, `[""]`, `[null]`}, "F": {`0`, `0.0`, `null`, `-0.0`}, "PB": {`""`, `null`},
+	}
+	names := []string{"B", "S", "L", "M", "A", "P", "I", "T", "R", "N", "X", "St", "LB", "MB", "LS", "F", "PB"}
+	sub := sub0
+	for _, name := range names {
+		for _, val := range empties[name] {
+			docs := []string{`{"` + name + `":` + val + `}`, `{"I":1,"` + name + `":` + val + `,"S":"s"}`, `{"` + name + `":` + stdExample(name) + `,"` + name + `":` + val + `}`}
+			if !c.Cur(sub, "shapes=core\nempty value "+val+" into member "+name) {
+				sub++
+				continue
+			}
+			for _, doc := range docs {
+				for ci := range decCfgs {
+					cfg := &decCfgs[ci]
+					for _, pre := range []bool{false, true} {
+						g, s := &dst{}, &dst{}
+						if pre {
+							g, s = full(), full()
+						}
+						var gerr error
+						pan, msg, _ := rt.Guard(func() { gerr = cfg.gof([]byte(doc), g) })
+						serr := cfg.stdf([]byte(doc), s)
+						c.Eval(1)
+						ctx := fmt.Sprintf("%s:prepopulated=%v", name, pre)
+						switch {
+						case pan:
+							c.Obs("panics_seen_judged_by_C06", 1)
+							_ = msg
+						case (gerr != nil) != (serr != nil):
+							c.Violate(rt.Violation{Monitor: "dec-diff", Entry: cfg.name, Kind: "empty-value:verdict", Ctx: ctx, Detail: fmt.Sprintf("%s: go-json err=%v, encoding/json err=%v", doc, gerr, serr), Sub: sub})
+						case serr == nil && !reflect.DeepEqual(g, s):
+							c.Violate(rt.Violation{Monitor: "dec-diff", Entry: cfg.name, Kind: "empty-value:value", Ctx: ctx, Detail: fmt.Sprintf("%s: go-json %#v, encoding/json %#v", doc, reflect.ValueOf(g).Elem().FieldByName(name).Interface(), reflect.ValueOf(s).Elem().FieldByName(name).Interface()), Sub: sub})
+						}
+					}
+				}
+			}
+			c.NonTrivial("empty", name, val)
+			sub++
+		}
+	}
+	c.Obs("empty_value_cases", int64(sub-sub0))
+}
+
+// stdExample is a non-empty document for the member (the first of a repeated pair).
+func stdExample(name string) string {
+	switch name {
+	case "B", "PB":
+		return `"QUJD"`
+	case "S", "X":
+		return `"first"`
+	case "L", "A":
+		return `[4,5,6]`
+	case "M":
+		return `{"first":1}`
+	case "P", "I", "N", "F":
+		return `5`
+	case "T":
+		return `true`
+	case "R":
+		return `[1]`
+	case "St":
+		return `{"Q":5}`
+	case "LB":
+		return `["QUJD","QQ=="]`
+	case "MB":
+		return `{"k":"QUJD","l":"QQ=="}`
+	case "LS":
+		return `["a","b"]`
+	}
+	return `1`
+}
+
 func c02FreshRender(d c02FreshDst) string {
 	var sb strings.Builder
 	v := reflect.ValueOf(d)
@@ -526,6 +630,9 @@ func init() {
 			}
 			if c.Idx%128 == 11 {
 				c02IfaceHolding(c, 8000)
+			}
+			if c.Idx%128 == 12 {
+				c02EmptyValues(c, 9500)
 			}
 			for k := 0; k < 40; k++ {
 				o := gen.TypeOpts{FeatureProb: 20}
